@@ -38,8 +38,8 @@ def _mk(ctx, kind, y, m, d):
     return P.DateTime(y, m, d, h, mi, s, us, tzinfo=tz), (h, mi, s, us)
 
 
-def _sym_date(ctx, ylo, yhi):
-    y = ctx.year("y", ylo, yhi); m = ctx.int("m", 1, 12); d = ctx.int("d", 1, 31)
+def _sym_date(ctx, ylo, yhi, mlo=1, mhi=12):
+    y = ctx.year("y", ylo, yhi); m = ctx.int("m", mlo, mhi); d = ctx.int("d", 1, 31)
     ctx.assume(d <= cal.days_in_month(y, m))
     return y, m, d
 
@@ -65,13 +65,12 @@ def _check(ctx, r, exp_ord, kind, t, keep_time, tzobj):
         ctx.claim("timezone kept", r.tzinfo is tzobj)
 
 
-def nav(ctx, kind, op, ylo, yhi):
+def nav(ctx, kind, op, ylo, yhi, mlo=1, mhi=12, keep=False):
     P = ctx.P
-    y, m, d = _sym_date(ctx, ylo, yhi)
+    y, m, d = _sym_date(ctx, ylo, yhi, mlo, mhi)
     x, t = _mk(ctx, kind, y, m, d)
     o = cal.ymd2ord(y, m, d)
     wd = ctx.concrete(ctx.int("wd", 0, 6))
-    keep = bool(ctx.bool("keep")) if kind != "date" else False
     kw = dict(keep_time=keep) if kind != "date" else {}
     if op == "next":
         r = x.next(P.WeekDay(wd), **kw)
@@ -139,8 +138,13 @@ def cases(tier):
         for op in ("next", "previous"):
             # day-step loops: the quick tier takes one leap and one common year as concrete years (all their days)
             for w in (((1999, 1999), (2000, 2000)) if tier == "quick" else (win,)):
-                out.append(dict(name=f"{kind} {op} {w[0]}..{w[1]}", fn=nav, params=dict(kind=kind, op=op, ylo=w[0], yhi=w[1]),
-                                bounds=f"every {kind} value in years {w[0]}..{w[1]} x 7 weekdays x keep_time"))
+              for mlo, mhi in ((1, 4), (5, 8), (9, 12)):
+                for keep in ((False, True) if kind != "date" else (False,)):
+                  if tier == "quick" and keep and w[0] == 1999:
+                      continue
+                  out.append(dict(name=f"{kind} {op} {w[0]}..{w[1]} months {mlo}-{mhi}" + (" keep_time" if keep else ""), fn=nav,
+                                  params=dict(kind=kind, op=op, ylo=w[0], yhi=w[1], mlo=mlo, mhi=mhi, keep=keep),
+                                  bounds=f"every {kind} value in years {w[0]}..{w[1]}, months {mlo}..{mhi} x 7 weekdays, keep_time={keep}"))
         for op in ("first_of", "last_of"):
             for unit in ("month", "quarter", "year"):
                 out.append(dict(name=f"{kind} {op} {unit}", fn=first_last, params=dict(kind=kind, op=op, unit=unit, ylo=win[0], yhi=win[1]),
@@ -148,9 +152,9 @@ def cases(tier):
             out.append(dict(name=f"{kind} {op} month (no weekday)", fn=first_last,
                             params=dict(kind=kind, op=op, unit="month", ylo=win[0], yhi=win[1], with_wd=False),
                             bounds=f"every {kind} value in years {win[0]}..{win[1]}, weekday omitted"))
-        for unit, nq, nt in (("month", 6, 6), ("quarter", 6, 15), ("year", 4, 54)):
+        for unit, nq, nt in (("month", 5, 6), ("quarter", 3, 15), ("year", 3, 54)):
             nmax = nq if tier == "quick" else nt
-            for w in (((1999, 1999), (2000, 2000)) if tier == "quick" else (win,)):
+            for w in ((((1999, 1999), (2000, 2000)) if kind == "date" else ((2000, 2000),)) if tier == "quick" else (win,)):
                 out.append(dict(name=f"{kind} nth_of {unit} {w[0]}..{w[1]}", fn=nth, params=dict(kind=kind, unit=unit, nmax=nmax, ylo=w[0], yhi=w[1]),
                                 bounds=f"every {kind} value in years {w[0]}..{w[1]} x 7 weekdays x n in 1..{nmax}"))
     return out
